@@ -279,7 +279,7 @@ example : Paths.absFrom "/start" (childDir { dir := "", workDir := "" }) = "/sta
 
 /-! ## non-vacuity -/
 example : (frontParse (fun _ => none) [("MAGEFILE_VERBOSE", "1")] ["-v=false", "x"]) =
-    .ok { verbose := false, args := ["x"], goCmd := "go", cacheDir := "/.magefile" } .none := by decide
+    .ok { verbose := false, args := ["x"], goCmd := "go", cacheDir := ".magefile" } .none := by decide
 example : getenv (childEnv (fun _ => "1m0s") [("A", "b=c d"), ("GOOS", "plan9"), ("E", "")] { verbose := true, timeout := 60 }) "A" = "b=c d" := by decide
 
 end MageModel.Props.C11
